@@ -3,7 +3,7 @@
   Model: `reportFor` / `createReport` (Model/Report.lean), `_finish_bundle` call sites in
   Model/BpAgent.lean. Property theorems only.
 -/
-import DtnVerif.Lemmas.Agent
+import DtnVerif.Lemmas.AgentFwd
 namespace DtnVerif
 namespace Props
 namespace C19
@@ -128,22 +128,14 @@ theorem C19_no_recursion (c r : Ctr) (h : createReport c = some r) :
 
 /-! ### a forwarded bundle is never reported as deleted -/
 
-/-- Full statement: when an idle `_do_fwd` lets the bundle leave the node — whole (`tx`) or as
-    fragments (`fragmented`) — no report it schedules asserts deletion. (`c0` is a queue entry
-    as `recv_bundle` makes them: no 'delete' recorded, see `C19_queue_no_delete`.) -/
-def ForwardNotDeleted : Prop :=
-  ∀ (cfg : Cfg) (st : St) (now : Nat) (sp : SendParams) (c0 : Ctr) (q : List Ctr),
-    st.fwdQ = c0 :: q → hasAct c0.actions .delete = false →
-    ((∃ d, Effect.tx d ∈ (doFwd cfg st now sp).2) ∨ Effect.fragmented ∈ (doFwd cfg st now sp).2) →
-    ∀ i rep r, Effect.report i rep r ∈ (doFwd cfg st now sp).2 → rep.deleted = .no
-
-/-- **Holds for bundles that are not fragmented on the way out** (`sp.frag ≠ consumed`): a
-    bundle handed to the convergence layer is reported forwarded, never deleted.
-    Missing part: the fragment-creation step consuming the bundle, see the counterexample. -/
-theorem C19_forward_not_deleted_partial
+/-- **Forwarded ⇒ not reported deleted.** When an idle `_do_fwd` lets the bundle leave the node —
+    whole (`tx`) or as fragments (`fragmented`, the fragment-creation step took it over) — every
+    report it schedules asserts forwarding and does not assert deletion. The fragment outcome
+    ranges over {none, consumed, raises, unsendable}. (`c0` is a queue entry as `recv_bundle`
+    makes them: no 'delete' recorded, see `C19_queue_no_delete`.) -/
+theorem C19_forward_not_deleted
     (cfg : Cfg) (st : St) (now : Nat) (sp : SendParams) (c0 : Ctr) (q : List Ctr)
     (hq : st.fwdQ = c0 :: q) (hnd : hasAct c0.actions .delete = false)
-    (hfrag : sp.frag ≠ .consumed)
     (hout : (∃ d, Effect.tx d ∈ (doFwd cfg st now sp).2) ∨ Effect.fragmented ∈ (doFwd cfg st now sp).2) :
     ∀ i rep r, Effect.report i rep r ∈ (doFwd cfg st now sp).2 → rep.deleted = .no := by
   have key : ∀ (e : St × Ctr × Bool) (s : St × Ctr × SendRes),
@@ -152,7 +144,8 @@ theorem C19_forward_not_deleted_partial
         if !e.2.2 then (fwdFail e.1 e.2.1 now []).2
         else match s.2.2 with
           | .sent b => Effect.tx b.enc :: finishEff (s.2.1.record .forward now)
-          | .noSender fr => (fwdFail s.1 s.2.1 now (if fr then [.fragmented] else [])).2 := by
+          | .consumed => Effect.fragmented :: finishEff (s.2.1.record .forward now)
+          | .noSender => (fwdFail s.1 s.2.1 now []).2 := by
     intro e s he hs
     subst he hs
     unfold doFwd
@@ -167,6 +160,21 @@ theorem C19_forward_not_deleted_partial
     obtain ⟨_, _, h⟩ := finishEff_mem _ _ hx
     subst h
     exact ⟨fun d => by simp, by simp⟩
+  -- a report scheduled after a successful hand-over
+  have hgood : ∀ (i : Ident) (rep : StatusReport) (r : Ctr),
+      Effect.report i rep r ∈ finishEff ((sendBundle cfg (fwdEdit cfg { st with fwdQ := q } now c0).1 now sp
+          (fwdEdit cfg { st with fwdQ := q } now c0).2.1).2.1.record .forward now) → rep.deleted = .no := by
+    intro i rep r hm
+    obtain ⟨rep', hrep, he⟩ := finishEff_mem _ _ hm
+    simp only [Effect.report.injEq] at he
+    obtain ⟨_, rfl, _⟩ := he
+    rw [reportFor_some _ _ hrep]
+    apply statusFor_delete_no
+    simp only [Ctr.record]
+    rw [hasAct_record_ne _ _ _ _ (by decide)]
+    simp only [sendBundle]
+    rw [(applyPrimary_actions _ _ _ _).1, (fwdEdit_meta _ _ _ _).1]
+    exact hnd
   rw [key _ _ rfl rfl] at hout ⊢
   split at hout
   · exfalso
@@ -182,55 +190,81 @@ theorem C19_forward_not_deleted_partial
       simp only [Bool.false_eq_true, if_false, List.mem_cons] at hm
       rcases hm with hm | hm
       · cases hm
-      · obtain ⟨rep', hrep, he⟩ := finishEff_mem _ _ hm
-        simp only [Effect.report.injEq] at he
-        obtain ⟨_, rfl, _⟩ := he
-        rw [reportFor_some _ _ hrep]
-        apply statusFor_delete_no
-        simp only [Ctr.record]
-        rw [hasAct_record_ne _ _ _ _ (by decide)]
-        simp only [sendBundle]
-        rw [(applyPrimary_actions _ _ _ _).1, (fwdEdit_meta _ _ _ _).1]
-        exact hnd
-    | noSender fr =>
+      · exact hgood i rep r hm
+    | consumed =>
+      intro i rep r hm
+      simp only [Bool.false_eq_true, if_false, List.mem_cons] at hm
+      rcases hm with hm | hm
+      · cases hm
+      · exact hgood i rep r hm
+    | noSender =>
       exfalso
-      have hfr' : fr = false := by
-        simp only [sendBundle, sendRes] at hres
-        (repeat' split at hres) <;> simp_all
-      subst hfr'
-      simp only [hres, Bool.false_eq_true, if_false] at hout
+      simp only [hres] at hout
       rcases hout with ⟨d, hd⟩ | hd
       · exact (hfail _ _ _ hd).1 d rfl
       · exact (hfail _ _ _ hd).2 rfl
 
-/-- Witness for D14: a bundle requesting deletion reports, routed `forward`, whose transmit
-    route makes the fragment step consume it. -/
+/-- Instance (the former D14 witness): a bundle requesting deletion and forwarding reports,
+    routed `forward`, whose transmit route makes the fragment step consume it. -/
 def d14Cfg : Cfg := { nodeId := .dtn [47, 47, 110, 111, 100, 101, 47], rxRoutes := [.forward] }
 def d14Ctr : Ctr :=
-  { primary := { flags := 0x40000, dest := .dtn [47, 47, 102, 114, 97, 103, 47, 120],
+  { primary := { flags := 0x50000, dest := .dtn [47, 47, 102, 114, 97, 103, 47, 120],
                  src := .dtn [47, 47, 115, 114, 99, 47], rpt := .dtn [47, 47, 114, 112, 116, 47],
                  ts := ⟨700, 0⟩, lifetime := 60000 },
     blocks := [{ c := { typeCode := 1, blockNum := 1, btsd := some [1, 2, 3] } }],
     actions := [(.receive, 800), (.forward, 800)] }
 def d14St : St := { fwdQ := [d14Ctr] }
-def d14Sp : SendParams := { txBits := [true], frag := .consumed }
-def d14Rep : StatusReport := reportOf (d14Ctr.record .delete 900 (some reasonNoRoute))
 
-/-- **The code violates the full statement (D14).** With the fragment-creation step consuming
-    the bundle, `send_bundle` raises "TX chain completed with no sender", `_do_fwd` records
-    delete / NO_ROUTE, and the report about a bundle that left as fragments says *deleted*
-    with reason 6. -/
-theorem C19_forward_not_deleted_counterexample : ¬ ForwardNotDeleted := by
-  intro h
-  have hmem : Effect.report (identOf d14Ctr.primary) d14Rep (replyCtr (.dtn [47, 47, 114, 112, 116, 47]) d14Rep)
-      ∈ (doFwd d14Cfg d14St 900 d14Sp).2 := by decide
-  have := h d14Cfg d14St 900 d14Sp d14Ctr [] rfl (by decide) (Or.inr (by decide)) _ _ _ hmem
-  exact absurd this (by decide)
+-- sent as fragments: reported forwarded, not deleted
+example : ∃ i rep r, (doFwd d14Cfg d14St 900 { txBits := [true], frag := .consumed }).2
+    = [.fragmented, .report i rep r] ∧ rep.forwarded = .yes none ∧ rep.deleted = .no :=
+  ⟨_, _, _, rfl, by decide, by decide⟩
 
-/-- what that report says: deleted, reason "no known route" -/
-theorem C19_d14_report_says_deleted :
-    d14Rep.deleted = .yes none ∧ d14Rep.forwarded = .no ∧ d14Rep.reason = reasonNoRoute
-    ∧ Effect.fragmented ∈ (doFwd d14Cfg d14St 900 d14Sp).2 := by decide
+/-- **When forwarding fails the report says deleted and does not say forwarded**: fragmentation
+    impossible, no transmit route or no convergence layer ⇒ nothing is handed over, 'forward' is
+    taken back, delete / "no known route" is recorded. -/
+theorem C19_failed_forward_not_reported_forwarded
+    (cfg : Cfg) (st : St) (now : Nat) (sp : SendParams) (c0 : Ctr) (q : List Ctr)
+    (hq : st.fwdQ = c0 :: q)
+    (hfail : sp.txBits.any id = false ∨ sp.frag = .unsendable ∨ (sp.frag ≠ .consumed ∧ sp.clOk = false)) :
+    (∀ d, Effect.tx d ∉ (doFwd cfg st now sp).2) ∧ Effect.fragmented ∉ (doFwd cfg st now sp).2
+    ∧ ∀ i rep r, Effect.report i rep r ∈ (doFwd cfg st now sp).2 →
+        rep.forwarded = .no ∧ rep.reason = reasonNoRoute := by
+  have hres : (sendBundle cfg (fwdEdit cfg { st with fwdQ := q } now c0).1 now sp
+      (fwdEdit cfg { st with fwdQ := q } now c0).2.1).2.2 = .noSender := by
+    simp only [sendBundle, sendRes]
+    rcases hfail with h | h | ⟨h1, h2⟩
+    · simp [h]
+    · cases hb : sp.txBits.any id <;> simp [h]
+    · cases hb : sp.txBits.any id <;> cases hf : sp.frag <;> simp_all
+  have hok := (fwdEdit_stages cfg { st with fwdQ := q } now c0).1
+  have heq : (doFwd cfg st now sp).2 = (fwdFail
+      (sendBundle cfg (fwdEdit cfg { st with fwdQ := q } now c0).1 now sp
+        (fwdEdit cfg { st with fwdQ := q } now c0).2.1).1
+      (sendBundle cfg (fwdEdit cfg { st with fwdQ := q } now c0).1 now sp
+        (fwdEdit cfg { st with fwdQ := q } now c0).2.1).2.1 now []).2 := by
+    unfold doFwd
+    simp only [hq, hok, Bool.not_true, Bool.false_eq_true, if_false, hres]
+  rw [heq]
+  simp only [fwdFail, finish_eff, List.nil_append]
+  refine ⟨?_, ?_, ?_⟩
+  · intro d hd
+    obtain ⟨_, _, h⟩ := finishEff_mem _ _ hd
+    simp at h
+  · intro hd
+    obtain ⟨_, _, h⟩ := finishEff_mem _ _ hd
+    simp at h
+  · intro i rep r hm
+    obtain ⟨rep', hrep, he⟩ := finishEff_mem _ _ hm
+    simp only [Effect.report.injEq] at he
+    obtain ⟨_, rfl, _⟩ := he
+    rw [reportFor_some _ _ hrep]
+    constructor
+    · apply statusFor_absent
+      simp only [Ctr.record]
+      rw [hasAct_record_ne _ _ _ _ (by decide)]
+      exact hasAct_delAct _ _
+    · simp [reportOf, Ctr.record]
 
 /-- Queue entries made by `recv_bundle` have no 'delete' recorded (it returns before queueing). -/
 theorem C19_queue_no_delete (cfg : Cfg) (st : St) (now : Nat) (rx : RxBundle) (c : Ctr)
